@@ -3,7 +3,7 @@ import Rare.Model.C06
 /-!
 Line protocol of C06.
 
-* `run <gunzip> <recursive> <readers> <batch> <mode> <args> <fs> <files> <stdin>` – a whole CLI run
+* `run <gunzip> <recursive> <readers> <batch> <mode> <args> <fs> <files> <stdin> [stdinfails]` – a whole CLI run
   (`mode` = `all` | `byte:<n>` | `histo`); answer: exit status, counters, canonical log lines, stdout multiset.
 * `glob <recursive> <args> <fs>` – what `dirwalk.GlobExpand` sends.
 * `open <gunzip> <names> <files>` – `batchers.OpenFilesToChan` over the names: error count and lines.
@@ -88,11 +88,11 @@ def joinOrDot (sep : String) (l : List String) : String :=
   if l.isEmpty then "." else sep.intercalate l
 
 def handle : List String → String
-  | ["run", gz, rec, readers, batch, mode, args, fs, files, stdin] =>
+  | "run" :: gz :: rec :: readers :: batch :: mode :: args :: fs :: files :: stdin :: rest =>
     match bool? gz, bool? rec, int? readers, int? batch, parseMode mode, decHexList args, parseFs fs,
           parseFiles files, Hex.dec stdin with
     | some gz, some rec, some readers, some batch, some mode, some args, some fs, some files, some stdin =>
-      let r := run ⟨gz, rec, readers, batch, mode⟩ args (mkFs fs) (mkFiles files) stdin
+      let r := run ⟨gz, rec, readers, batch, mode⟩ args (mkFs fs) (mkFiles files) stdin (rest.head? == some "stdinfails")
       let logs := joinOrDot "," (sortStrs (r.logs.map logStr))
       let out := joinOrDot ";" (sortStrs (r.out.map Hex.enc))
       s!"ok exit={r.exit} errs={r.readErrors} read={r.readLines} matched={r.matched} logs={logs} out={out}"
